@@ -11,9 +11,6 @@ STUBS = '''impl Instance {
         ensures forall|k: u64| #[trigger] r@.contains(k) <==> exists|i: int| 0 <= i < self.decision_variables.len() && (#[trigger] self.decision_variables[i]).id == k && self.decision_variables[i].kind == 1
     { unimplemented!() }
 }
-impl Function {
-    #[verifier::external_body] pub fn used_decision_variable_ids(&self) -> (r: BTreeSet<u64>) ensures r@ =~= fn_used(*self) { unimplemented!() }
-}
 // purity naming (ASSUMED): the list the term iterator yields for a message is a function of the message.  Everything else about that list is proved (fn_terms below)
 #[verifier::external_body]
 pub fn name_terms(v: Vec<(SortedIds, F64)>, f: &Function) -> (r: Vec<(SortedIds, F64)>)
